@@ -222,7 +222,7 @@ func c18Prepend(cs *drv.Case, t *enode, prefix string) {
 
 func monC18(c *drv.Ctx) {
 	// (1) PrependError over random terms and prefixes
-	c.Stage("prepend", c.Pick(60000, 5000000), false, func(cs *drv.Case) {
+	c.Stage("prepend", c.Pick(600000, 10000000), false, func(cs *drv.Case) {
 		t := genTerm(cs, 2)
 		prefix := ""
 		if cs.R.Intn(4) > 0 {
@@ -262,7 +262,7 @@ func monC18(c *drv.Ctx) {
 		cs.Count(true, "grid", i)
 	})
 	// (3) errors.Is over all ordered pairs of a pool of terms
-	c.Stage("is-pairs", c.Pick(3000, 300000), false, func(cs *drv.Case) {
+	c.Stage("is-pairs", c.Pick(30000, 500000), false, func(cs *drv.Case) {
 		r := cs.R
 		n := 4 + r.Intn(6)
 		pool := make([]*enode, 0, n+4)
